@@ -173,7 +173,11 @@ def check_row_background_steps(chk, ix):
     st.frames = []
     b1, b2, t1 = _tok(st, "b1"), _tok(st, "b2"), _tok(st, "t1")
     tmpl_bg = st.alloc(HObj("list", kind="list", items=[b1, b2], label="template background_steps"))
-    tmpl = st.alloc(HObj("TemplateStub", {"background_steps": tmpl_bg,
+    # b1 is inherited (the feature's background), b2 is the rule's own background step
+    own_bg = st.alloc(HObj("list", kind="list", items=[b2], label="background.steps"))
+    bg_obj = st.alloc(HObj("BackgroundStub", {"steps": own_bg, "inherited_steps": st.alloc(HObj("list", kind="list", items=[b1])),
+                                              "all_steps": st.alloc(HObj("list", kind="list", items=[b1, b2]))}, label="template background"))
+    tmpl = st.alloc(HObj("TemplateStub", {"background_steps": tmpl_bg, "background": bg_obj,
                                           "steps": st.alloc(HObj("list", kind="list", items=[t1]))},
                          open=True, label="template"))
     builder = st.alloc(HObj(ix.cls("behave.model:ScenarioOutlineBuilder"), {"annotation_schema": "x"}, label="builder"))
@@ -199,6 +203,9 @@ def check_row_background_steps(chk, ix):
                 for x in (s.obj(bgs).items or []):
                     if isinstance(x, Ref) and x.oid <= s.base_oid:
                         problems.append("a background Step object of the template is shared with the row scenario")
+                got = [s.obj(x).fields.get("origin") for x in (s.obj(bgs).items or []) if isinstance(x, Ref)]
+                if s.obj(bgs).items is not None and got != ["b1", "b2"]:
+                    problems.append("the row scenario gets the background steps %s, the template has b1 (inherited from the feature) and b2 (own)" % got)
         if isinstance(steps, Ref):
             for x in (s.obj(steps).items or []):
                 if isinstance(x, Ref) and x.oid <= s.base_oid:
@@ -206,7 +213,7 @@ def check_row_background_steps(chk, ix):
         if problems:
             chk.fail(Finding("S5", func.fullname, problems[0],
                              "outline row: " + "; ".join(sorted(set(problems))) +
-                             " (rows would overwrite each other's step status)",
+                             " (rows would overwrite each other's step status / run other background steps than their template)",
                              file=func.file, line=func.lineno, stmt="def make_scenario_for", path=list(s.path)))
         else:
             chk.ok("S5", {"row_background_steps": "None or fresh copies", "row_steps": "fresh copies"},
@@ -277,18 +284,31 @@ def check_match_protection(chk, ix):
                 chk.fail(Finding("S7", func.fullname, "swallowed=%s" % cm,
                                  "%s raised by a type converter is swallowed (result %r) instead of becoming a step error" % (cm, v),
                                  file=func.file, line=func.lineno, stmt="def match", path=list(s.path)))
-    # MatchWithError.run re-raises as StepParseError (an Exception -> Step.run maps it to error)
+    # MatchWithError.run raises StepParseError whatever the converter raised (Step.run maps it to the status error: an AssertionError of a
+    # converter must not make the step "failed", a StepNotImplementedError must not make it "pending") - by evaluation
     mw = ix.cls("behave.matchers:MatchWithError")
-    rf = mw.methods.get("run")
-    chk.instance("S7")
-    import ast as _ast
-    raises = [n for n in _ast.walk(rf.node) if isinstance(n, _ast.Raise)] if rf else []
-    if rf is not None and raises:
-        chk.ok("S7", "MatchWithError.run raises the stored error", nontrivial_key="mwe.run")
-    else:
-        chk.fail(Finding("S7", "behave.matchers:MatchWithError.run", "no raise",
-                         "MatchWithError.run does not raise the stored conversion error", file=mw.module.relpath,
-                         line=mw.node.lineno))
+    rf = mw.lookup("run")
+    if rf is None:
+        raise AnalysisError("anchor missing: MatchWithError.run")
+    for cn in ("ValueError", "TypeError", "AssertionError", "KeyError", "RuntimeError", "StepNotImplementedError", "Exception"):
+        it = Interp(ix, name="MatchWithError.run")
+        st = State()
+        st.frames = []
+        cls = ix.cls(cn) if cn in ix.classes_by_name else cn
+        err = st.alloc(HObj(cls, {"args": ("converter problem",)}, kind="exc", open=True, label="stored " + cn))
+        me = st.alloc(HObj(mw, {"stored_error": err, "func": Top("func", True), "arguments": st.alloc(HObj("list", kind="list", items=[])),
+                                "location": "steps.py:1"}, label="match with error"))
+        outs = it.call_function(st, rf, [Top("context", True)], {}, None, self_val=me)
+        chk.absorb(it)
+        chk.instance("S7")
+        kinds = sorted({(k, v.clsname() if k == "raise" else repr(v)) for (_, k, v) in outs})
+        if kinds == [("raise", "StepParseError")]:
+            chk.ok("S7", {"stored error": cn, "MatchWithError.run raises": "StepParseError"}, nontrivial_key=("mwe.run", cn))
+        else:
+            chk.fail(Finding("S7", rf.fullname, "stored %s -> %s" % (cn, kinds),
+                             "MatchWithError.run with a stored %s ends with %s, not with StepParseError: Step.run maps the exception class to the "
+                             "step status (AssertionError: failed, StepNotImplementedError: pending), a failed type conversion is an error" % (cn, kinds),
+                             file=rf.file, line=rf.lineno, stmt="def run"))
 
 
 
